@@ -547,6 +547,13 @@ class OpaqueJson(Plugin):
             unit.dropped.append('lambda body passed to %s in %s (Json::parse)' % (name, unit.cur))
             return 'v_json_parse_throws()'
         return None
+    def construct_expr(self, unit, n):
+        # Json() / Json(nullptr) / copy of a Json value: an opaque value
+        t = n.get('type', {})
+        if any(qt and re.match(r'^(const )?((tbox::)?Json|nlohmann::basic_json<.*>)$', qt.strip()) for qt in (t.get('desugaredQualType'), t.get('qualType'))):
+            ks = unit.kids(n)
+            if len(ks) <= 1: return '((struct v_json){0})'
+        return None
     def member_call(self, unit, n, me, base, args):
         if not self.is_json(base): return None
         b = unit.expr(base); f = b if me.get('isArrow') else unit.addr_text(b)
